@@ -9,6 +9,9 @@ import (
 	"testing"
 	"time"
 
+	"github.com/paulsonkoly/calc/memory"
+	"github.com/paulsonkoly/calc/types/value"
+
 	"verif/core"
 	"verif/tape"
 )
@@ -167,4 +170,51 @@ func BenchmarkRunHistory(b *testing.B) {
 	for i := 0; i < b.N; i++ {
 		RunHistory(tape.New(core.SeedFor(3, ID, i)))
 	}
+}
+
+// TestKnownMinimalHistories replays, straight on the memory API, the two minimal histories the search
+// found on the pinned tree. It reports whether each still reproduces; it does not fail, so it stays
+// green before and after the repairs are committed.
+func TestKnownMinimalHistories(t *testing.T) {
+	call := func(m *memory.Type, localc int, closure []value.Type, ret int) {
+		m.PushFrame(0, localc)
+		m.PushClosure(closure)
+		m.Push(value.NewInt(ret))
+	}
+
+	// K5: Clone(reuse) sizes the recycled stack with the recycled memory's stale sp.
+	func() {
+		defer func() {
+			if r := recover(); r != nil {
+				t.Logf("K5 reproduced: Clone(nil) at depth 0; destroy; call(argc=0, localc=128); Clone(recycled); child.IP() -> %v", r)
+			}
+		}()
+		main := memory.New()
+		recycled := main.Clone(nil) // empty child: 128 slots, sp 0; then destroyed
+		call(main, 128, nil, 7)     // frame extent 129 > 128
+		child := main.Clone(recycled)
+		if got, _ := child.IP().ToInt(); got == 7 {
+			t.Logf("K5 not reproduced (repaired): child.IP() = 7, StackLen %d", child.StackLen())
+		} else {
+			t.Logf("K5 reproduced: child.IP() = %v, expected 7", *child.IP())
+		}
+	}()
+
+	// K1: Clone shares the closure stack's backing array between parent and child.
+	func() {
+		main := memory.New()
+		call(main, 0, nil, 1) // closure stack: len 1
+		main.PopFrame()
+		main.PopClosure() // len 0, cap 1
+		main.Push(value.NewInt(2))
+		child := main.Clone(nil)
+		call(main, 0, []value.Type{value.NewInt(3)}, 4)
+		call(child, 0, []value.Type{value.NewInt(5)}, 6)
+		got, _ := main.LookUpClosure(0).ToInt()
+		if got == 3 {
+			t.Logf("K1 not reproduced (repaired): parent reads its own closure value 3")
+		} else {
+			t.Logf("K1 reproduced: call; ret; Clone(nil); parent call closure=[3]; child call closure=[5]; parent LookUpClosure(0) = %d, expected 3", got)
+		}
+	}()
 }
